@@ -131,36 +131,39 @@ def forbidden_scan():
 # ---------------------------------------------------------------- running executions
 
 def run_family(binp, family, n, seed, props, shards=1, start=0, extra=None, quiet=False):
-    """run n executions of a family through the driver. returns dict with results"""
+    """run n executions of a family through the driver (all shards in parallel). returns dict with results"""
     res = {"runs": 0, "bad": [], "rejected": [], "hashes": set(), "nontrivial": set(), "livelocks": [], "errors": []}
-    procs = []
-    for sh_i in range(shards):
-        procs.append(_spawn(binp, family, n, seed, props, sh_i, shards, start, quiet))
-    for sh_i, (p1, p2) in enumerate(procs):
-        cur_start = start
-        while True:
-            out, _ = p2.communicate()
-            p1.wait()
-            last = _parse(out, family, res)
-            if p1.returncode == 3 and last is not None:
-                res["livelocks"].append(last)
-                p1, p2 = _spawn(binp, family, n, seed, props, sh_i, shards, last + 1, quiet)
-                continue
-            if p1.returncode not in (0, 3):
-                res["errors"].append("harness exit %s in family %s shard %d" % (p1.returncode, family, sh_i))
-            break
+    tmpd = tempfile.mkdtemp(prefix="vrun-")
+    try:
+        procs = [_spawn(binp, family, n, seed, props, sh_i, shards, start, quiet, tmpd) for sh_i in range(shards)]
+        for sh_i in range(shards):
+            p1, p2, outp = procs[sh_i]
+            while True:
+                p2.wait(); p1.wait()
+                out = open(outp).read()
+                last = _parse(out, family, res)
+                if p1.returncode == 3 and last is not None:
+                    res["livelocks"].append(last)
+                    p1, p2, outp = _spawn(binp, family, n, seed, props, sh_i, shards, last + 1, quiet, tmpd)
+                    continue
+                if p1.returncode not in (0, 3):
+                    res["errors"].append("harness exit %s in family %s shard %d" % (p1.returncode, family, sh_i))
+                break
+    finally:
+        shutil.rmtree(tmpd, ignore_errors=True)
     return res
 
 
-def _spawn(binp, family, n, seed, props, shard, shards, start, quiet):
+def _spawn(binp, family, n, seed, props, shard, shards, start, quiet, tmpd):
     cmd = [binp, "-family", family, "-n", str(n), "-seed", str(seed), "-shard", str(shard), "-shards", str(shards), "-start", str(start)]
     if quiet:
         cmd.append("-quiet")
     pre = lambda: __import__("resource").setrlimit(__import__("resource").RLIMIT_AS, (16 << 30, 16 << 30))
+    outp = os.path.join(tmpd, "out-%d-%d.txt" % (shard, start))
     p1 = subprocess.Popen(cmd, stdout=subprocess.PIPE, stderr=subprocess.DEVNULL, preexec_fn=pre)
-    p2 = subprocess.Popen([DRIVER] + props, stdin=p1.stdout, stdout=subprocess.PIPE, text=True)
+    p2 = subprocess.Popen([DRIVER] + props, stdin=p1.stdout, stdout=open(outp, "w"), text=True)
     p1.stdout.close()
-    return p1, p2
+    return p1, p2, outp
 
 
 RES_RE = re.compile(r"^RESULT (\d+)(.*)$")
@@ -274,6 +277,13 @@ def run_check(pid, tier, seed):
         for m in re.finditer(r"error: ([^\n]*)", out):
             failing.append(m.group(1))
         failing = failing[:10] or ["lake build failed"]
+    checker_note = ""
+    if lean_ok and tier == "thorough" and modules:
+        # independent re-check of the compiled proofs of this property
+        r = sh("cd %s && lake env leanchecker %s" % (LEAN, modules[0]))
+        checker_note = "leanchecker %s: %s" % (modules[0], "ok" if r.returncode == 0 else "FAILED")
+        if r.returncode != 0:
+            failing.append("leanchecker rejected %s: %s" % (modules[0], (r.stdout + r.stderr)[-300:]))
     fb = forbidden_scan()
     if fb:
         failing.append("forbidden tokens: " + "; ".join(fb[:5]))
@@ -360,6 +370,7 @@ def run_check(pid, tier, seed):
             "checker_cmd": "cd /verif/lean && lake build %s && lake env lean <generated #print axioms file>" % " ".join(modules),
             "trusted_base": CHECKS["trusted_base"] + cfg.get("trusted_extra", []),
             "theorems": details,
+            "independent_recheck": checker_note,
             "traces_validated_against_impl": total["runs"] - len(total["rejected"]),
             "evaluations": total["runs"],
             "distinct_nontrivial": len(total["nontrivial"]),
